@@ -48,7 +48,8 @@ for d in sorted(glob.glob(os.path.join(V, "seeded", "C*-*"))):
     if os.path.exists(fp):
         fm = json.load(open(fp))
         final = ", ".join(fm["detected_by"]) or "missed by its own check"
-    out.append(f"| {m['name']} | {'yes' if m['confirmed'] else 'NO'} | {', '.join(m['detected_by']) or '**missed**'} | {before} | {final} | {', '.join(sigs)[:160]} | {need.replace('|', '/')} |\n")
+    det = ', '.join(m['detected_by']) or ('thorough tier only' if m.get('thorough_tier', {}).get('detected') else '**missed**')
+    out.append(f"| {m['name']} | {'yes' if m['confirmed'] else 'NO'} | {det} | {before} | {final} | {', '.join(sigs)[:160]} | {need.replace('|', '/')} |\n")
 text = "".join(out)
 p = os.path.join(V, "DESIGN.md")
 s = open(p).read()
